@@ -265,7 +265,8 @@ func (chain *groupChain) remove(group *types.Group) bool {
 	}
 	chain.groups.Delete(group.Id)
 	chain.groups.Put([]byte(lastGroupKey), preGroup.Id)
-	chain.groups.Put(generateKey(chain.count), preGroup.Id)
+	// the removed group is the last one: drop its height entry (save wrote it at count-1)
+	chain.groups.Delete(generateKey(chain.count - 1))
 	chain.count--
 	chain.groups.Put([]byte(groupCountKey), utility.UInt64ToByte(chain.count))
 	chain.lastGroup = preGroup
